@@ -177,6 +177,19 @@ func runC13(e *Engine, g G, o RunOpt) RunInfo {
 		if !got {
 			e.Violate("C13", "session-does-not-send", "%s: an application Send (error: %v) never reached the server on connection #%d", when, err, c.Idx)
 		}
+		// ... and is kept alive: 25 s have passed on this connection
+		if ka := time.Duration(sc.Client.KeepaliveNs); ka < 10*time.Second && !c.Dead {
+			n := 0
+			for _, r := range c.Recv {
+				if r.Item.Kind == ItemText && strings.Contains(string(r.Item.Raw), "\n") {
+					n++
+				}
+			}
+			if n == 0 {
+				e.Violate("C13", "session-without-keepalive", "%s: no keepalive reached the server on connection #%d in 25 s (interval %v)", when, c.Idx, ka)
+			}
+			e.Probe("c13.keepalive_checked")
+		}
 	}
 
 	e.Run(func() {
